@@ -89,6 +89,11 @@ pub enum Op {
     PopFinalized {
         dst: Option<RootRef>,
     },
+    /// `get_finalizers_for(object in root)`: pops every outstanding finalizer registration of that
+    /// object, whether still a candidate or already ready.
+    FinalizersFor {
+        root: RootRef,
+    },
     /// Add an ephemeron (key, value) pair to the VM-side weak table.
     AddEphemeron {
         key: RootRef,
